@@ -211,8 +211,8 @@ package mvp5
 // -> armed with the fall-through pc+4; anything else disarms.
 //@ spec func fuSame(fu *fetchUnit) bool = fu.pc == old(fu.pc) && fu.complete == old(fu.complete) && fu.toCleanPending == old(fu.toCleanPending)
 //@ func (*btbBranchUnit).assert
-//@   mode bv
-//@   requires bu != nil && bu.btb != nil && bu.fu != nil && runner.Runner != nil
+//@   mode int
+//@   requires bu != nil && bu.btb != nil && bu.fu != nil && runner.Runner != nil && runner.Pc <= 2147483643
 //@   ensures risc.insType(runner.Runner).IsUnconditionalBranch() && !btbHas(bu.btb, runner.Pc) ==> bu.toCheck && bu.expectation == -1 && fuSame(bu.fu)
 //@   ensures risc.insType(runner.Runner).IsUnconditionalBranch() && btbHas(bu.btb, runner.Pc) ==> !bu.toCheck && !bu.fu.complete && bu.fu.toCleanPending
 //@   ensures forall a :: risc.insType(runner.Runner).IsUnconditionalBranch() && btbFirst(bu.btb, runner.Pc, a) ==> bu.fu.pc == at(bu.btb.buffer, a).pcDest
@@ -221,7 +221,7 @@ package mvp5
 //@   assigns bu.toCheck, bu.expectation, bu.fu.pc, bu.fu.complete, bu.fu.toCleanPending
 
 //@ func (*btbBranchUnit).shouldFlushPipeline
-//@   mode bv
+//@   mode int
 //@   requires bu != nil
 //@   ensures result == (old(bu.toCheck) && old(bu.expectation) != pc)
 //@   ensures !bu.toCheck && bu.expectation == old(bu.expectation)
@@ -230,9 +230,32 @@ package mvp5
 // a resolved jump records its target, restarts the fetch unit at the resolved
 // target (whatever was predicted) and lifts the decode stall.
 //@ func (*btbBranchUnit).notifyJumpAddressResolved
-//@   mode bv
+//@   mode int
 //@   requires bu != nil && wfBTB(bu.btb) && bu.fu != nil && bu.du != nil
 //@   ensures bu.fu.pc == pcTo && !bu.fu.complete && bu.fu.toCleanPending && !bu.du.pendingBranchResolution
 //@   ensures wfBTB(bu.btb) && btbHas(bu.btb, pc) && (forall a :: btbFirst(bu.btb, pc, a) ==> at(bu.btb.buffer, a).pcDest == pcTo)
 //@   ensures bu.toCheck == old(bu.toCheck) && bu.expectation == old(bu.expectation)
 //@   assigns bu.btb.buffer, all []entry, bu.fu.pc, bu.fu.complete, bu.fu.toCleanPending, bu.du.pendingBranchResolution
+
+// ---------------------------------------------------------------- execute unit (C03)
+// armed: what assert leaves behind for the instruction the unit holds.
+//@ spec func armed(eu *executeUnit) bool = \
+//@    (risc.insType(eu.runner.Runner).IsConditionalBranch() ==> eu.bu.toCheck && eu.bu.expectation == eu.runner.Pc + 4) \
+//@    && (risc.insType(eu.runner.Runner).IsUnconditionalBranch() && !btbHas(eu.bu.btb, eu.runner.Pc) ==> eu.bu.toCheck && eu.bu.expectation == -1) \
+//@    && (risc.insType(eu.runner.Runner).IsUnconditionalBranch() && btbHas(eu.bu.btb, eu.runner.Pc) ==> !eu.bu.toCheck)
+//@ spec func euWired(eu *executeUnit, ctx *risc.Context) bool = eu != nil && eu.bu != nil && wfBTB(eu.bu.btb) && eu.bu.fu != nil && eu.bu.du != nil && eu.mmu != nil && eu.runner.Runner != nil && risc.wfBoard(ctx) && risc.smallBoard(ctx) && eu.runner.Pc <= 2147483643
+
+// run executes the held instruction. Every execution that changes the pc ends
+// in one of two ways (C03): a flush to its target is requested (return 3), or
+// the front end already follows the target - for a jump the fetch unit has just
+// been restarted (live) at the resolved target and the decode stall lifted, for
+// a conditional branch the armed prediction pc+4 was right. A store that hits
+// the data cache (return 2) never changes the pc.
+//@ func (*executeUnit).run
+//@   requires euWired(eu, ctx) && armed(eu) && outBus != nil
+//@   assume-before InstructionRunner.Run: risc.runPre(eu.runner.Runner, ctx, memory)
+//@   return 2: !execution.PcChange
+//@   return 3: execution.PcChange
+//@   return 4: execution.PcChange && risc.insType(eu.runner.Runner).IsUnconditionalBranch() ==> eu.bu.fu.pc == execution.NextPc && eu.bu.fu.toCleanPending && !eu.bu.fu.complete && !eu.bu.du.pendingBranchResolution
+//@   return 4: execution.PcChange && risc.insType(eu.runner.Runner).IsConditionalBranch() ==> execution.NextPc == eu.runner.Pc + 4
+//@   return 4: execution.PcChange ==> risc.insType(eu.runner.Runner).IsBranch()
